@@ -702,3 +702,83 @@ Proof.
   - cbn. lia.
   - cbn. lia.
 Qed.
+
+(* ------------------------------------------------ reassembly allocation: bytes received *)
+Lemma sum_len_le_weight : forall g l, Forall frag_ok l -> 0 <= sumZ (map fr_len (filter g l)) <= frag_weight l.
+Proof.
+  intros g; induction l as [|f t IH]; intros H; [cbn; lia|]. cbn [filter]. rewrite frag_weight_cons.
+  inversion H as [|? ? Hf Ht]; subst. destruct Hf as (_ & _ & Hl). specialize (IH Ht).
+  destruct (g f); cbn [map sumZ]; lia.
+Qed.
+
+Lemma reconstruct_alloc_bound : forall W p s, 0 <= W -> Forall frag_ok (wp_frags p) -> frag_weight (wp_frags p) <= W ->
+  0 <= reconstruct_alloc p s <= W.
+Proof.
+  intros W p s HW D E. unfold reconstruct_alloc.
+  destruct (find _ _) as [f0|]; [|lia]. destruct (fr_size f0 =? 0); [lia|].
+  destruct (_ =? _); [|lia]. unfold frags_of. rewrite <- (filter_filter_and _ _ (wp_frags p)) || idtac.
+  pose proof (Forall_filter _ _ (fun f => fr_sn f =? s) _ D) as D1.
+  pose proof (sum_len_le_weight (fun f => (0 <=? fr_start f) && (fr_start f <=? frag_sum (filter (fun f1 => fr_sn f1 =? s) (wp_frags p))))
+                                (filter (fun f => fr_sn f =? s) (wp_frags p)) D1) as [A B].
+  pose proof (frag_weight_filter (fun f => fr_sn f =? s) (wp_frags p) D). split; [exact A|lia].
+Qed.
+
+Lemma frag_alloc_bound : forall C rel f p, wproxy_ok C p -> frag_ok f -> 0 <= C ->
+  0 <= frag_alloc rel f p <= C + fr_len f + 1.
+Proof.
+  intros C rel f p H Hf HC0. unfold frag_alloc, frag_pushed. rewrite (expected_ok C p H). cbn [bind].
+  match goal with |- context [if ?c then push_frag p f else p] => set (cnd := c) end.
+  assert (H1 : wproxy_ok (C + fr_len f + 1) (if cnd then push_frag p f else p)).
+  { destruct cnd; [apply push_frag_ok; auto|]. destruct Hf as (_ & _ & Hl). eapply wp_weaken; [|exact H]. lia. }
+  destruct H1 as (_ & _ & D & E). destruct Hf as (_ & _ & Hl).
+  apply reconstruct_alloc_bound; auto. lia.
+Qed.
+
+Lemma sub_alloc_bound : forall C rs st m, 0 <= C -> InvC C st -> sub_range m ->
+  0 <= sub_alloc rs st m <= len (ps_readers st) * (C + frag_bytes_sub m).
+Proof.
+  intros C rs st m HC0 [A _] HR.
+  pose proof (len_nonneg _ (ps_readers st)) as Hl0.
+  destruct m; cbn [sub_alloc frag_bytes_sub]; try nia.
+  cbn [sub_range] in HR. destruct HR as [_ Hf0]. pose proof (len_nonneg _ payload) as Hpl.
+  destruct (fsize =? 0) eqn:Ez; cbn [orb]; [nia|].
+  destruct (sn =? i64_max); cbn [orb]; [nia|].
+  destruct (Z.ltb_spec (len payload + 1) fcount) as [Hgt|Kfc]; [nia|].
+  apply sumZ_bound. intros r Hr. rewrite Forall_forall in A. specialize (A r Hr).
+  apply (proxy_steps_bound _ _ _ _ (wproxy_ok C)); [lia|exact A|].
+  intros p Hp.
+  pose proof (frag_alloc_bound C (sr_rel r) (mk_frag sn fstart fcount fsize dsize (len payload)) p Hp) as Hb.
+  cbn [fr_len] in Hb. destruct Hb as [Hb1 Hb2]; [repeat split; cbn [fr_count fr_len fr_size]; try lia; apply Z.eqb_neq; exact Ez|exact HC0|].
+  lia.
+Qed.
+
+Lemma subs_alloc_bound : forall l C rs st, 0 <= C ->
+  C + frag_bytes l <= FRAG_CAP -> InvC C st -> Forall sub_range l ->
+  0 <= subs_alloc rs st l <= len l * len (ps_readers st) * (C + frag_bytes l).
+Proof.
+  induction l as [|m t IH]; intros C rs st HC0 HC HI HK; cbn [subs_alloc]; [cbn; lia|].
+  inversion HK as [|? ? K1 K2]; subst.
+  unfold frag_bytes in *. cbn [map sumZ] in *. pose proof (frag_bytes_nonneg t) as Hn. unfold frag_bytes in Hn.
+  assert (Hm0 : 0 <= frag_bytes_sub m) by (destruct m; cbn; try lia; pose proof (len_nonneg _ payload); lia).
+  pose proof (sub_alloc_bound C rs st m HC0 HI K1) as Hs.
+  destruct (handle_sub_ok C rs st m) as (rs1 & st1 & o & E1 & E2 & E3); [lia|exact HI|exact K1|].
+  rewrite E1. specialize (IH (C + frag_bytes_sub m) rs1 st1 ltac:(lia) ltac:(unfold frag_bytes; lia) E2 K2).
+  unfold frag_bytes in IH. rewrite len_cons.
+  assert (Hr : len (ps_readers st1) = len (ps_readers st)) by (unfold len; rewrite E3; reflexivity). rewrite Hr in IH.
+  set (S1 := sumZ (map frag_bytes_sub t)) in *.
+  replace (C + frag_bytes_sub m + S1) with (C + (frag_bytes_sub m + S1)) in IH by lia.
+  pose proof (len_nonneg _ (ps_readers st)) as Hl0. pose proof (len_nonneg _ t) as Ht0.
+  nia.
+Qed.
+
+Theorem datagram_alloc_bound : forall C st bytes, 0 <= C ->
+  InvC C st -> C + frag_bytes (subs_of bytes) <= FRAG_CAP -> Forall sub_range (subs_of bytes) ->
+  0 <= datagram_alloc st bytes <=
+  alloc_bound (len (subs_of bytes)) (len (ps_readers st)) (C + frag_bytes (subs_of bytes)).
+Proof.
+  intros C st bytes HC0 HI HC HK. unfold datagram_alloc, subs_of, alloc_bound in *.
+  destruct (parse_message bytes) as [[h l]|e|x].
+  - apply subs_alloc_bound; auto.
+  - cbn. lia.
+  - cbn. lia.
+Qed.
